@@ -361,6 +361,41 @@ def make_syst_fp(n, m):
                       stubs=["np.random.random -> symbolic double in [0,1)"], theory="QF_FP", timeout_ms=60000)
 
 
+def make_syst_fp_counts(n, wts):
+    """bit-precise count law: concrete (dyadic, exactly normalised) weights, the offset an arbitrary double in [0,1):
+    every index is copied floor(n*w_i) or ceil(n*w_i) times. The comb positions (u0 + k)/n are rounded; a tooth that rounds onto a
+    cell boundary must still fall into the cell it belongs to."""
+    from vf.engine.fp import SymFP, FP, fpval
+    import z3 as _z3
+    m = len(wts)
+    W = [float(Fraction(w)) for w in wts]
+    assert sum(Fraction(w) for w in wts) == 1
+
+    def harness(ctx: PathCtx):
+        u = ctx.register("u0", _z3.FP("u0", FP))
+        ctx.assume(_z3.And(_z3.fpGEQ(u, fpval(0.0)), _z3.fpLT(u, fpval(1.0))))
+        stub = RandomStub(lambda kind, rec: SymFP(u), max_calls=1)
+        with patched(tools, np=NpProxy(random=stub)):
+            idx = [int(i) for i in tools.systematic_resample(n, np.array(W))]
+        copies = [idx.count(i) for i in range(m)]
+        ok = all(math.floor(n * Fraction(wts[i])) <= copies[i] <= math.ceil(n * Fraction(wts[i])) for i in range(m)) and len(idx) == n
+        ctx.check("copies-floor-or-ceil(bit-precise)", _z3.BoolVal(bool(ok)), detail={"indices": idx, "copies": copies, "n*w": [float(n * Fraction(w)) for w in wts]})
+        return idx
+
+    def replay(model, label, v):
+        u0 = float(model["u0"])
+        with scripted_random(random=lambda *a, **k: u0):
+            idx = [int(i) for i in tools.systematic_resample(n, np.array(W))]
+        copies = [idx.count(i) for i in range(m)]
+        bad = not all(math.floor(n * Fraction(wts[i])) <= copies[i] <= math.ceil(n * Fraction(wts[i])) for i in range(m))
+        return {"reproduced": bool(bad), "signature": "systematic_resample:fp:copies-floor-or-ceil", "payload": {"n": n, "w": W, "u0": u0, "idx": idx},
+                "what": f"tools.systematic_resample({n}, {W}) with np.random.random()={u0!r} returned {idx}: copies {copies} but n*w = {[float(n * Fraction(w)) for w in wts]}"}
+
+    return Obligation(f"syst-fp-counts-n{n}-w{'_'.join(str(w) for w in wts)}", harness, replay=replay, encodes=[tools.systematic_resample],
+                      bounds=f"size n={n}, concrete weights {list(map(str, wts))}, ALL offsets in [0,1) as doubles (bit-precise)",
+                      stubs=["np.random.random -> symbolic double in [0,1)"], theory="QF_FP", timeout_ms=120000)
+
+
 def obligations(tier):
     obs = []
     sizes = [(2, 2), (3, 2), (2, 3), (3, 3)] if tier == "quick" else [(2, 2), (3, 2), (2, 3), (3, 3), (4, 3), (3, 4), (4, 4)]
@@ -372,6 +407,8 @@ def obligations(tier):
     obs.append(make_resampler("syst", 2, (2, 1)))
     obs.append(make_resampler("syst", 2, (2, 1), mode="tol"))
     obs.append(make_syst_fp(2, 2))
+    obs.append(make_syst_fp_counts(4, ("1/4", "1/4", "1/4", "1/4")))
+    obs.append(make_syst_fp_counts(4, ("1/2", "1/4", "1/4")))
     if tier == "thorough":
         obs.append(make_resampler("mult", 3, (2, 2)))
         obs.append(make_resampler("syst", 3, (2, 2)))
